@@ -49,6 +49,28 @@ def gen_history(rnd, tkey, kind, maxlen=10):
             hist.append(('add', nid, n))
             nid += 1
         return hist
+    if kind == 'dupfwd':
+        # few names, many repetitions, explicit forward= indices, removals: the duplication / pruning machinery
+        ls = leaves_of(TREE[tkey])
+        rep_names = [n for n in a if ls.count(n) > 1]
+        sub = []
+        for _ in range(rnd.choice([1, 2, 2, 3])):
+            n = rnd.choice(rep_names) if rep_names and rnd.random() < 0.5 else rnd.choice(a)
+            if n not in sub:
+                sub.append(n)
+        for _ in range(rnd.randint(3, 12)):
+            r = rnd.random()
+            if live and r < 0.25:
+                i, n = rnd.choice(live)
+                hist.append(('rm', i))
+                live.remove((i, n))
+            else:
+                n = rnd.choice(sub)
+                fwd = rnd.choice([0, 1, 1, 1, 2, -1]) if rnd.random() < 0.4 else None
+                hist.append(('add', nid, n, fwd) if fwd is not None else ('add', nid, n))
+                live.append((nid, n))
+                nid += 1
+        return hist
     L = rnd.randint(1, maxlen)
     for _ in range(L):
         r = rnd.random()
